@@ -379,6 +379,15 @@ class World:  # pylint: disable=too-many-instance-attributes,too-many-public-met
             info = {'refused': True}
             op = {'op': 'reopen', 'h': idx, 't': op.get('t', 'c')}  # the generic oracles still run: nothing may be damaged
         self.last_info = info
+        if name in ('repack', 'repack_pack', 'delete') and len(side.handles) > 1:
+            # repack and delete are maintenance operations for which no other client may be using the container
+            # (objects move inside the packs / disappear): the other clients are new processes afterwards. A handle
+            # kept open across them would read the rewritten pack through its old index snapshot - outside C01-C18.
+            keep = op.get('h', 0) % len(side.handles)
+            for i, other in enumerate(side.handles):
+                if i != keep:
+                    other.close()
+                    side.handles[i] = self.lib.Container(side.folder)
         if self.oracle is not None:
             self.oracle.after(self, side, op, info, pre)
         return info
